@@ -35,6 +35,10 @@ def build_case(rng: random.Random) -> dict:
         case['mode'] = 'all' if case['factory'] == 'all_dashes' else 'first'
         case['glyph'] = '-'
         case['spaces'] = 2
+    elif rng.random() < 0.15:
+        # the width is not passed in: it comes from the module default, which a user may
+        # override (text_gen.fetch_default_indent_nr_spaces documents that as a feature)
+        case['default_override'] = True
     return case
 
 
@@ -48,6 +52,13 @@ def make_indentizer(case, tg):
     if case['mode'] != 'none':
         bullets = tg.BulletList(mode=tg.BulletListMode.ALL if case['mode'] == 'all'
                                 else tg.BulletListMode.FIRST_ONLY, glyph=case['glyph'])
+    if case.get('default_override'):
+        saved = tg.DEFAULT_INDENT_NR_SPACES
+        tg.DEFAULT_INDENT_NR_SPACES = case['spaces']
+        try:
+            return tg.Indentizer(indentor=indentor, bullet_list=bullets)
+        finally:
+            tg.DEFAULT_INDENT_NR_SPACES = saved
     return tg.Indentizer(indentor=indentor, spaces_count=case['spaces'], bullet_list=bullets)
 
 
@@ -95,6 +106,8 @@ def eval_case(case: dict) -> dict:
         out['violations'].append({'mechanism': mech, 'detail': detail, 'case': case})
 
     cnt[f'via_{case["via"]}'] = 1
+    if case.get('default_override'):
+        cnt['width_from_overridden_module_default'] = 1
     cnt[f'mode_{case["mode"]}_{case["indentor"]}'] = 1
     lines = list(case['lines'])
     try:
@@ -173,7 +186,7 @@ def main(tier: str) -> int:
     per = 1000 if tier == 'quick' else 10000
     run.require('lines_judged', 'to_str_compared', 'headers_checked', 'glyph_wider_than_indent',
                 'mode_none_spaces', 'mode_all_spaces', 'mode_first_spaces', 'mode_none_tab',
-                'mode_all_tab', 'mode_first_tab')
+                'mode_all_tab', 'mode_first_tab', 'width_from_overridden_module_default')
     for _item, res in run.pmap(_worker, [(run.seed, i, per) for i in range(total // per)]):
         if 'harness_error' in res:
             run.mark_inconclusive('harness error: ' + res['harness_error'][-300:])
